@@ -185,7 +185,7 @@ def ch_opt_errors(ctx) -> Channel:
     names = c16_http.all_option_names()
     pool = c16_http.option_value_pool()
     kinds = c16_http.option_kinds()
-    qs = [O.gen_calc_query(rng, names, pool, kinds) for _ in range(ctx.scale(600, 8000))]
+    qs = [O.gen_calc_query(rng, names, pool, kinds) for _ in range(ctx.scale(600, 5000))]
     qs += [[["drm", "foo"]], [["time", "bogus"]], [["start", "P1D"]], [["start", ""]], [["verr", "503="]],
            [["events", "ping"], ["ping__count", "10001"]], [["events", "ping"], ["ping__count", "10000"]],
            [["events", "pong"], ["ping__count", "10001"]], [["events", "scte35"], ["scte35__timescale", "0"]],
@@ -254,7 +254,7 @@ def ch_inject(ctx) -> Channel:
     with app.ctx() as m:
         nseg = {u: m.MediaFile.get(name=I.TRACKS[u][0]).representation.num_media_segments for u in "vat"}
     cases = []
-    for _ in range(ctx.scale(110, 1200)):
+    for _ in range(ctx.scale(110, 650)):
         cases.append(I.gen_media_case(rng, nseg) if rng.random() < .7 else I.gen_manifest_case(rng))
     lines = [I.driver_line(c) for c in cases]
     try:
@@ -291,7 +291,7 @@ def ch_inject(ctx) -> Channel:
             ch.sample({"case": {k: case[k] for k in ("kind", "failures", "verr", "merr")},
                        "answers": [s for s, _ in real][:10]}, limit=3)
     # ---- time → segment translation
-    scases = [I.gen_segs_case(rng) for _ in range(ctx.scale(400, 6000))]
+    scases = [I.gen_segs_case(rng) for _ in range(ctx.scale(400, 4000))]
     try:
         model = common.run_driver([I.segs_line(c) for c in scases])
     except Exception as e:
@@ -504,7 +504,7 @@ def ch_clients(ctx) -> Channel:
     jobs = []
     for i, e in enumerate(E):
         if ctx.thorough:
-            opts = C.A_OPTIONS
+            opts = [C.A_OPTIONS[(i + j) % len(C.A_OPTIONS)] for j in range(5)]
         elif e[0].startswith("legacy"):
             opts = [C.A_OPTIONS[0], C.A_OPTIONS[(i % (len(C.A_OPTIONS) - 1)) + 1]]
         else:
@@ -1154,7 +1154,7 @@ class HttpFuzz:
                     k = self._rot = getattr(self, "_rot", -1) + 1
                     ts = [targets[k % 3]]
                 elif self.ctx.thorough:
-                    ts = self.rng.sample(targets, 2)
+                    ts = self.rng.sample(targets[:4] + targets[5:], 1) if self.rng.random() < .9 else [targets[4]]
                 else:
                     # stratified: the targets in rotation; the multi-period manifest (0.5 s per request) every 12th
                     k = self._rot = getattr(self, "_rot", -1) + 1
@@ -1283,6 +1283,70 @@ class HttpFuzz:
                     m.Stream.get(directory="syn1").defaults = None
                     m.db.session.commit()
             self.clients = saved
+
+    def exact_limits(self):
+        """every integer path component at the EXACT limits derived from the object it addresses (first-1, first,
+        last, last+1, last+2 - harness/CHECKLIST.md section 8), fixed grid: the segment inspection page of every
+        indexed media file (segnum 0, 1, N-1, N, N+1, N+2 where the file has init + N media segments; HTML and
+        ?ajax=1), the file's other pages, $Number$ and $Time$ of every indexed file on /dash vod, primary keys of
+        streams / files / keys / periods at 0, min-1, min, max, max+1, max+2, files addressed under the wrong
+        stream.  Oracle: never a 5xx."""
+        ext = {"video": "m4v", "audio": "m4a", "text": "m4s"}
+        P = self.P
+        one = lambda path, q=(), who="anon", ep="exact-limit": self.one("GET", path, [list(x) for x in q], who, None, endpoint=ep)  # noqa: E731
+        names = sorted(P["reps"])
+        if not self.ctx.thorough:
+            # quick: every file of the fixture streams and of the C16 world, every third synthetic file
+            keep = [n for n in names if n.startswith(("bbb", "tears", "c16"))]
+            rest = [n for n in names if n not in keep]
+            names = keep + rest[::3]
+        for i, name in enumerate(names):
+            rep = P["reps"][name]
+            spk, mfid, n = rep["spk"], rep["mfid"], rep["n"]
+            th = self.ctx.thorough
+            for k in sorted({0, 1, n - 1, n, n + 1, n + 2} if th else {0, n, n + 1, n + 2}):
+                if k < 0:
+                    continue
+                one(f"/stream/{spk}/{mfid}/segment/{k}", (), "anon", "view-media-segment")
+                if k >= n - 1 if th else k == n + 1:
+                    one(f"/stream/{spk}/{mfid}/segment/{k}", (("ajax", "1"),), "media", "view-media-segment")
+            e = ext.get(rep["content_type"], "mp4")
+            sn = rep["sn"]
+            base = f"/dash/vod/{rep['stream']}/{name}"
+            q = (("drm", "all"),) if name.endswith("_enc") else ()
+            for num in sorted({0, sn - 1, sn, sn + 1, sn + n - 2, sn + n - 1, sn + n, sn + n + 1} if th
+                              else {sn - 1, sn, sn + n - 1, sn + n}):
+                if num >= 0:
+                    one(f"{base}/{num}.{e}", q, "anon", "dash-media")
+            total = sum(rep["durs"])
+            last_start = total - (rep["durs"][-1] if rep["durs"] else 0)
+            for t in sorted({0, last_start - 1, last_start, last_start + 1, total - 1, total, total + 1} if th
+                            else {0, last_start, total - 1, total}):
+                if t >= 0:
+                    one(f"{base}/time/{t}.{e}", q, "anon", "dash-media-by-time")
+        # ---- primary keys at the ends of what exists
+        def ends(pks):
+            pks = sorted(pks)
+            return sorted({0, pks[0] - 1, pks[0], pks[-1], pks[-1] + 1, pks[-1] + 2} - {-1}) if pks else [0, 1]
+        some = P["reps"][names[0]]
+        for spk in ends(P["spks"]):
+            for path in (f"/stream/{spk}", f"/stream/{spk}/defaults", f"/stream/{spk}/{some['mfid']}",
+                         f"/stream/{spk}/{some['mfid']}/segments", f"/stream/{spk}/{some['mfid']}/segment/1"):
+                one(path, (), "media")
+        for mfid in ends(P["mfids"]):
+            for path in (f"/stream/{some['spk']}/{mfid}", f"/stream/{some['spk']}/{mfid}/segments",
+                         f"/stream/{some['spk']}/{mfid}/segment/0", f"/stream/{some['spk']}/{mfid}/segment/1",
+                         f"/stream/{some['spk']}/{mfid}/edit", f"/media/index/{mfid}"):
+                one(path, (), "media")
+        for kpk in ends(P["kpks"]):
+            one(f"/key/{kpk}", (), "media")
+        for mps, ppks in sorted(P["ppks"].items()):
+            for ppk in ends(ppks):
+                f0 = (P["pfiles"].get(ppks[0]) or ["bbb_v7"])[0] if ppks else "bbb_v7"
+                for mode in ("vod", "live"):
+                    one(f"/mps/{mode}/{mps}/{ppk}/{f0}/init.m4v", (), "anon", "mps-init-seg")
+                    one(f"/mps/{mode}/{mps}/{ppk}/{f0}/1.m4v", (), "anon", "mps-media-seg-by-number")
+                    one(f"/mps/{mode}/{mps}/{ppk}/{f0}/time/0.m4v", (), "anon", "mps-media-seg-by-time")
 
     PATH_BUDGET = 6.0        # seconds per request of the path-integer grid (the clean tree answers in milliseconds)
 
@@ -1497,14 +1561,15 @@ def ch_fuzz_http(ctx, stop_after=None) -> Channel:
         t0 = time.perf_counter()
         before = c16_http.pools(fz.app)
         fz.reference_check()                     # the first answers
-        phases = [("clock_sweep", lambda: (fz.clock_sweep(clock, ctx.scale(2, 150)), fz.login())),
+        phases = [("clock_sweep", lambda: (fz.clock_sweep(clock, ctx.scale(2, 70)), fz.login())),
                   ("regressions", fz.regressions), ("path_integers", fz.path_integers),
+                  ("exact_limits", fz.exact_limits),
                   ("boundary_sweep", fz.boundary_sweep),
                   ("long_strings", fz.long_strings), ("sweep", fz.sweep), ("every_option", fz.every_option),
-                  ("random_gets", lambda: fz.random_gets(ctx.scale(450, 30000))),
-                  ("stored_defaults", lambda: fz.stored_defaults(ctx.scale(12, 300))),
+                  ("random_gets", lambda: fz.random_gets(ctx.scale(450, 10000))),
+                  ("stored_defaults", lambda: fz.stored_defaults(ctx.scale(12, 200))),
                   ("stored_sources", fz.stored_sources),
-                  ("mutating", lambda: fz.mutating(ctx.scale(250, 4000)))]
+                  ("mutating", lambda: fz.mutating(ctx.scale(250, 2500)))]
         for name, run in phases:
             fz._phase = name
             t1, e1 = time.perf_counter(), ch.evaluations
@@ -1564,7 +1629,8 @@ def ch_fuzz_mp4(ctx) -> Channel:
     # count-field edits: quick = the small seeds of the original and layout classes; the shape seeds (shp_*, same
     # box layouts in other shapes) join in the thorough tier, the two cache-window files never (0.5 MB per case)
     small = [k for k in sorted(S) if len(S[k]) < 20000 and not k.startswith("shp_")]
-    allc = [k for k in sorted(S) if k not in ("shp_over_window", "shp_at_window")]
+    shp = [k for k in sorted(S) if k.startswith("shp_") and k not in ("shp_over_window", "shp_at_window")]
+    allc = [k for k in sorted(S) if not k.startswith("shp_")] + shp[::5]
     cases = [({"seed": k, "op": "none"}, v) for k, v in sorted(S.items())]
     n_plain = len(cases)
     # ---- count / size fields of every layout class
@@ -1574,7 +1640,7 @@ def ch_fuzz_mp4(ctx) -> Channel:
         count_cases += M.count_cases(k, S[k], None if ctx.thorough else quick_values)
     ch.count("count-field cases", len(count_cases))
     # ---- seeded mutations
-    n_lib, n_insp, n_idx = ctx.scale(130, 3500), ctx.scale(40, 1000), ctx.scale(28, 800)
+    n_lib, n_insp, n_idx = ctx.scale(130, 1800), ctx.scale(40, 500), ctx.scale(28, 350)
     rand_cases = []
     for _ in range(n_lib):
         k = rng.choice(sorted(S))
@@ -1894,6 +1960,16 @@ def replay_finding(ctx, finding):
     if finding.get("class") == "stored-unusable":
         r = _replay_http({"method": "GET", "path": w["path"], "query": [], "stored_raw": w["stored"]})
         return bool(r["fails"])
+    if finding.get("class") == "mps-megabyte-value":
+        if not ctx.thorough:
+            return True          # (the replay needs a gigabyte of memory: thorough tier only)
+        r = _replay_http({"method": "GET", "path": w["path"], "query": [["drm", "all"], [w["name"], "a" * w["size"]]]})
+        return bool(r["fails"])
+    if finding.get("class") == "tiny-segments-timeline":
+        if not ctx.thorough:
+            return True          # (the replay waits for the 20 s budget twice: thorough tier only)
+        r = _replay_mp4({"target": "index", "desc": w["desc"]})
+        return bool(r.get("fails"))
     app = c16_http.world()
     with appboot.Clock(w.get("now", c16_http.NOW)):
         c = app.client()
@@ -1911,7 +1987,30 @@ def replay_finding(ctx, finding):
     return status != w.get("expect_status", 200)
 
 
+def _mdhd_timescale(data: bytes):
+    i = data.find(b"mdhd")
+    if i < 4 or i + 28 > len(data):
+        return None
+    off = i + 4 + 4 + (16 if data[i + 4] == 1 else 8)
+    return int.from_bytes(data[off:off + 4], "big")
+
+
 def matches_finding(finding, failure):
+    cls = finding.get("class")
+    if cls == "mps-megabyte-value":
+        return (failure.get("kind") == "http" and failure.get("status") == 0
+                and str(failure.get("path", "")).startswith("/mps/")
+                and any(len(v) >= 1 << 20 for _k, v in (failure.get("query") or [])))
+    if cls == "tiny-segments-timeline":
+        if failure.get("kind") != "mp4" or failure.get("step") not in ("live-timeline", "live-patch", "patch") \
+                or "no answer within" not in str(failure.get("why")):
+            return False
+        import c16_mp4
+        try:
+            ts = _mdhd_timescale(c16_mp4.rebuild(failure["desc"]))
+        except Exception:      # noqa: BLE001
+            return False
+        return ts is not None and ts > 10 ** 7
     # (the generators never produce the two injection ledger situations as oracle failures)
     if finding.get("class") == "stored-unusable":
         # class of the INPUT, not of the outcome: the failing request belongs to the stored-sources grid and the
